@@ -861,6 +861,10 @@ def monitor(lines, out):
         elif name == "SUBQ":
             accepted = o[0][0] == 0
             if d["extras"] & 64:
+                if accepted:
+                    # free text that was accepted: its responses are not judged
+                    subs[o[0][1]] = {"h": o[0][1], "p": d["p"], "sql": d["sql"], "v": ("outside", "free text"),
+                                     "open": True, "dead": False}
                 continue
             verdict = check_query(d["query"], schema)
             STATS["queries: reference verdict " + verdict[0]] += 1
